@@ -326,6 +326,11 @@ def harnesses(tier):
 
     def add(fn, base, params, bounds, **kw):
         hs.append(Harness(pname(base, **params), fn, tuple(params.values()), FUNCS, bounds, STUBS, **kw))
+    import vchecks.c01 as c01
+    for kind in c01.LIST_LENGTH_KINDS:
+        for n_stu in range(1, 7):
+            add(c01.h_list_length, 'list_box_count', dict(kind=kind, n_boxes=n_stu), 'any number of boxes handed to flat / grouped / nested list graders: a result or a library error, nothing else escapes',
+                max_paths=None if T else 40)
     add(h_wrapper, 'wrapper', {}, 'every catalogue exception x debug x single/list input x message shape', validate=False)
     add(h_text_inputs, 'text_inputs', {}, '3 variants x 14 input-object shapes', validate=False)
     add(h_text_inputs_call, 'text_inputs_call', {}, '4 graders x configured/inferred answers x debug x 14 input-object shapes', validate=False)
